@@ -107,7 +107,12 @@ def check_merge(A, rep):
         top = [n for n in lv if len(n.stack) == 1]
         heads = [n for n in top if n.kind == "join" and n["what"] == "loop-head"]
         # establishing exits
-        eq_arms = [n.id for n in top if n.kind == "arm" and n["arm"] is True and g.nodes[n["branch"]]["cond"].kind in ("cmp", "cmpres") and g.nodes[n["branch"]]["cond"].args[0] == "=="]
+        def _is_eq(c):
+            if c.kind in ("cmp", "cmpres") and c.args[0] == "==":
+                return True
+            return c.kind == "boolop" and c.args[0] == "and" and any(_is_eq(x) for x in c.args[1:])
+
+        eq_arms = [n.id for n in top if n.kind == "arm" and n["arm"] is True and _is_eq(g.nodes[n["branch"]]["cond"])]
         child_done = [n.id for n in lv if (n.kind == "leave" and n["fname"] == "_update" and len(n.stack) == 2 and n["recv"].args[1] == "nested")
                       or (n.kind == "recurse" and n["func"].endswith("._update") and len(n.stack) == 1)]
         stores = [n.id for n in top if n.kind == "data_mut" and n["op"] == "setitem" and any(x.kind == "call" and str(x.args[0]).endswith("._from_base") for x in n["value"].walk())]
